@@ -241,7 +241,8 @@ fn geodesics(h: &H, idx: u64, rng: &mut Rng) {
     let maxd = 1.9e7 * ell.a / 6378137.0;
     h.distinct(mix(hash_str(&name), idx));
     let what = (idx / 5) % 10;
-    let (lon1, lat1) = (rng.range(-PI, PI), rng.range(-89.0, 89.0) * D2R);
+    // (now and then exactly on the equator: the formulas have a 0/0 there)
+    let (lon1, lat1) = (rng.range(-PI, PI), if rng.chance(0.06) { 0.0 } else { rng.range(-89.0, 89.0) * D2R });
     let p1 = Coor2D::raw(lon1, lat1);
     match what {
         // towards a pole: the inverse problem to a target at, or within metres of, a pole, and the
